@@ -8,7 +8,6 @@
 package simrt
 
 import (
-	"bytes"
 	"fmt"
 	"runtime"
 	"runtime/debug"
@@ -31,6 +30,7 @@ const (
 // G is one simulated goroutine.
 type G struct {
 	Pts   int // synchronisation points this goroutine has passed (independent of the scheduling mode)
+	quiet int // >0: harness set-up code is running on this goroutine: its shim calls are not scheduling points
 	ID     string
 	state  int
 	resume chan struct{}
@@ -126,15 +126,7 @@ var Debug func(what, id string)
 var S Sim
 
 //go:norace
-func goid() uint64 {
-	var buf [64]byte
-	n := runtime.Stack(buf[:], false)
-	b := buf[:n]
-	b = b[len("goroutine "):]
-	i := bytes.IndexByte(b, ' ')
-	id, _ := strconv.ParseUint(string(b[:i]), 10, 64)
-	return id
-}
+func goid() uint64 { return runtime.VerifGoid() } // (runtime overlay, scripts/mkoverlay.sh)
 
 //go:norace
 func (s *Sim) next() uint64 {
@@ -255,6 +247,9 @@ func Point(site string) {
 		g.park()
 		return
 	}
+	if g.quiet > 0 {
+		return
+	}
 	if S.res.Points != nil {
 		S.res.Points[site]++
 	}
@@ -263,6 +258,21 @@ func Point(site string) {
 	if S.cfg.PCT > 0 || g.consec >= S.cfg.MaxConsec || (S.cfg.YieldP > 0 && Float() < S.cfg.YieldP) {
 		g.park()
 	}
+}
+
+// Quiet runs f (harness set-up work that calls into instrumented code a great many times, with no other
+// goroutine interested in what it touches) without treating its shim calls as scheduling points.
+//
+//go:norace
+func Quiet(f func()) {
+	g := self()
+	if g == nil {
+		f()
+		return
+	}
+	g.quiet++
+	defer func() { g.quiet-- }()
+	f()
 }
 
 // Yield parks unconditionally (used by harness polling loops).
